@@ -24,6 +24,25 @@ class K:
     class Inner:
         pass
 
+    @classmethod
+    def make(cls, *a, **k):
+        return (cls, a, k)
+
+    @staticmethod
+    def smake(*a, **k):
+        return (a, k)
+
+
+import abc as _abc
+
+
+class Shape(_abc.ABC):
+    """a class whose metaclass is not `type` (alternative constructors are classmethods bound to the CLASS)"""
+
+    @classmethod
+    def from_parts(cls, *a, **k):
+        return (cls, a, k)
+
 
 def func(*a, **k):
     return (a, k)
@@ -60,7 +79,7 @@ def pretty_carrier(v, ctx):
 
 def expected_name(fn):
     mod = fn.__module__
-    if mod in ('builtins', '__main__'):
+    if mod in ('builtins', '__main__', None):      # (None: methods of built-in types, e.g. dict.fromkeys)
         return fn.__qualname__
     return '%s.%s' % (mod, fn.__qualname__)
 
@@ -75,7 +94,10 @@ def call_shape(chk):
     cases = []
     meta = {}
     seen = set()
-    fns = [K, K.Inner, func, dict, sorted, collections.OrderedDict, Carrier]
+    # classes, nested classes, functions, built-ins - and alternative constructors: class methods (bound to a class with
+    # the default and with another metaclass), static methods, a class method of a built-in type
+    fns = [K, K.Inner, func, dict, sorted, collections.OrderedDict, Carrier, K.make, K.smake, Shape.from_parts, dict.fromkeys,
+           K.Inner, collections.OrderedDict.fromkeys]
     nprints = 0
     bound = []
     # the same value (object) at several argument positions: the printers of None, Ellipsis, True ... return one shared
